@@ -129,7 +129,116 @@ Section Layer.
       + rewrite H3. cbn. apply Nat.leb_gt. lia.
     - repeat split; auto.
   Qed.
+
+  (* ---------------------------------------------------------------- any program with the same run *)
+
+  (* The theorem above is about layer_prog B.  The program found in the source may spell the
+     same loop differently (`len >= B` for `len == B`: the slice never grows beyond B; `len != 0`
+     for `len > 0`; the branches of a negated test exchanged).  It is enough that
+       - what stands before the loop over the points leaves the state of a fresh request,
+       - one pass of its loop body is body_step B on every state with fewer than B points pending,
+       - what follows the loop acts like `if len > 0 { Add; send }; Wait` on every such state. *)
+  Definition run_list (cur : option Pt) (p : list stmt) (s : lst) : lst := fold_left (fun s st => lexec1 cur st s) p s.
+
+  Definition layer_post : list stmt := [IfLen CGt 0 [Do (PReqAdd 1); Do PSendReq] []; Do PReqWait].
+
+  Lemma body_step_eq B s x :
+    body_step B s x =
+      if List.length (l_pts s ++ [x]) =? B
+      then mkL (l_req s) [] (l_off s + B) (l_sent s ++ [(l_off s, l_pts s ++ [x])]) (l_adds s + 1)
+               (l_early s || (l_adds s + 1 <=? List.length (l_sent s))) false
+      else mkL (l_req s) (l_pts s ++ [x]) (l_off s) (l_sent s) (l_adds s) (l_early s) false.
+  Proof.
+    unfold body_step. cbn [fold_left lexec1 lprim l_pts cmp_nat].
+    destruct (List.length (l_pts s ++ [x]) =? B); reflexivity.
+  Qed.
+
+  Lemma loop_same B body : 1 <= B ->
+    (forall s x, List.length (l_pts s) < B -> run_list (Some x) body s = body_step B s x) ->
+    forall pts s, List.length (l_pts s) < B ->
+      fold_left (fun s x => run_list (Some x) body s) pts s = fold_left (body_step B) pts s /\
+      List.length (l_pts (fold_left (body_step B) pts s)) < B.
+  Proof.
+    intros HB Hbody. induction pts as [|x r IH]; intros s Hs; cbn [fold_left]; [split; [reflexivity | exact Hs]|].
+    rewrite (Hbody s x Hs). apply IH. rewrite body_step_eq.
+    destruct (List.length (l_pts s ++ [x]) =? B) eqn:E; cbn [l_pts]; [cbn; lia|].
+    apply Nat.eqb_neq in E. rewrite app_length in *. cbn [List.length] in *. lia.
+  Qed.
+
+  Theorem layer_like_is_batch_plan B (p pre body post : list stmt) :
+    1 <= B ->
+    p = pre ++ ForPoints body :: post ->
+    run_list None pre linit = mkL true [] 0 [] 0 false false ->
+    (forall s x, List.length (l_pts s) < B -> run_list (Some x) body s = body_step B s x) ->
+    (forall s, List.length (l_pts s) < B -> run_list None post s = run_list None layer_post s) ->
+    let s := lexec p linit in
+    l_sent s = batch_plan Pt B points /\ l_adds s = List.length (l_sent s) /\
+    l_early s = false /\ l_waited s = true /\ l_req s = true.
+  Proof.
+    intros HB -> Hpre Hbody Hpost.
+    assert (E : lexec (pre ++ ForPoints body :: post) linit = lexec (layer_prog B) linit).
+    { unfold lexec. rewrite fold_left_app. cbn [fold_left]. cbn [lexec1].
+      change (fold_left (fun s st => lexec1 None st s) pre linit) with (run_list None pre linit). rewrite Hpre.
+      change (fold_left (fun s0 x => fold_left (fun s1 st => lexec1 (Some x) st s1) body s0) points ?t)
+        with (fold_left (fun s0 x => run_list (Some x) body s0) points t).
+      destruct (loop_same B body HB Hbody points (mkL true [] 0 [] 0 false false)) as [El Hl]; [cbn; lia|].
+      rewrite El.
+      change (fold_left (fun s st => lexec1 None st s) post ?t) with (run_list None post t).
+      rewrite (Hpost _ Hl). unfold layer_prog. cbn [fold_left]. cbn [lexec1 lprim].
+      reflexivity. }
+    cbv zeta. rewrite E. apply layer_program_is_batch_plan.
+  Qed.
+
+  (* where the loop over the points stands in a program *)
+  Fixpoint split_points (p : list stmt) : option (list stmt * list stmt * list stmt) :=
+    match p with
+    | [] => None
+    | ForPoints b :: r => Some ([], b, r)
+    | s :: r => match split_points r with Some (pre, b, post) => Some (s :: pre, b, post) | None => None end
+    end.
+
+  Lemma split_points_ok p : forall pre b post, split_points p = Some (pre, b, post) -> p = pre ++ ForPoints b :: post.
+  Proof.
+    induction p as [|s r IH]; intros pre b post H; [discriminate|].
+    assert (G : forall pre' , split_points r = Some (pre', b, post) -> pre = s :: pre' -> s :: r = pre ++ ForPoints b :: post).
+    { intros pre' H' ->. cbn. f_equal. now apply IH. }
+    destruct s; cbn [split_points] in H;
+      try (destruct (split_points r) as [[[pre' b'] post']|]; [|discriminate]; inversion H; subst; eapply G; reflexivity).
+    inversion H; subst. reflexivity.
+  Qed.
 End Layer.
+
+(* the three facts about a program of Generated/SysProgs.v, decided by computation and by case
+   analysis on the comparisons of lengths *)
+Ltac sched_nat_bools :=
+  repeat match goal with
+  | H : (_ <=? _) = true |- _ => apply Nat.leb_le in H
+  | H : (_ <=? _) = false |- _ => apply Nat.leb_gt in H
+  | H : (_ <? _) = true |- _ => apply Nat.ltb_lt in H
+  | H : (_ <? _) = false |- _ => apply Nat.ltb_ge in H
+  | H : (_ =? _) = true |- _ => apply Nat.eqb_eq in H
+  | H : (_ =? _) = false |- _ => apply Nat.eqb_neq in H
+  | H : negb _ = true |- _ => apply negb_true_iff in H
+  | H : negb _ = false |- _ => apply negb_false_iff in H
+  end.
+
+Ltac sched_split_ifs :=
+  repeat match goal with
+  | |- context [if ?b then _ else _] => let E := fresh "E" in destruct b eqn:E
+  end;
+  try reflexivity; exfalso; sched_nat_bools; rewrite ?app_length in *; cbn [List.length] in *; lia.
+
+Ltac layer_like B :=
+  eapply (@layer_like_is_batch_plan _ _ B);
+  [ apply Nat.leb_le; vm_compute; reflexivity
+  | apply split_points_ok; vm_compute; reflexivity
+  | vm_compute; reflexivity
+  | let s := fresh "s" in let x := fresh "x" in let H := fresh "H" in
+    intros s x H; rewrite body_step_eq; destruct s; unfold run_list;
+    cbn [fold_left lexec1 lprim cmp_nat l_req l_pts l_off l_sent l_adds l_early l_waited] in *; sched_split_ifs
+  | let s := fresh "s" in let H := fresh "H" in
+    intros s H; destruct s; unfold run_list, layer_post;
+    cbn [fold_left lexec1 lprim cmp_nat l_req l_pts l_off l_sent l_adds l_early l_waited] in *; sched_split_ifs ].
 
 (* ------------------------------------------------------------------ 2. the evaluation routines *)
 
